@@ -1,0 +1,16 @@
+//go:build verif
+
+package cleaner
+
+// VerifState returns the raw state of the IdleInvoker: the use count,
+// whether a call to the Cleaner is in flight (wakeup channel present)
+// and whether the lock could be taken without blocking. If the lock is
+// held by somebody else, the other values are not read. It is only used
+// by external verification tooling.
+func (i *IdleInvoker) VerifState() (useCount uint, cleaning, lockFree bool) {
+	if !i.lock.TryLock() {
+		return 0, false, false
+	}
+	defer i.lock.Unlock()
+	return i.useCount, i.wakeup != nil, true
+}
